@@ -91,7 +91,7 @@ def make_replay(u, wd, f, rec):
     rec["inputs"] = inputs
     reproduced = False
     if u.replay and inputs:
-        reproduced, out = native_replay(u, inputs, f["desc"])
+        reproduced, out = native_replay(u, inputs, f["desc"], f["id"])
         rec["native_replay_output"] = out[-4000:]
     rec["reproduced"] = reproduced
     return rec, reproduced
@@ -99,7 +99,7 @@ def make_replay(u, wd, f, rec):
 
 def native_build(u, outdir):
     exe = os.path.join(outdir, "replay_" + u.name)
-    cmd = ["clang", "-O1", "-w", "-DVERIF_NATIVE=1", "-I" + os.path.join(VERIF, "contracts"), "-I" + os.path.join(VERIF, "harness"),
+    cmd = ["clang", "-O1", "-w", "-g", "-fsanitize=address,undefined", "-fno-omit-frame-pointer", "-DVERIF_NATIVE=1", "-I" + os.path.join(VERIF, "contracts"), "-I" + os.path.join(VERIF, "harness"),
            "-I" + core.REPO, "-I" + os.path.join(core.REPO, "src"), "-I" + os.path.join(core.REPO, "include"),
            "-I" + os.path.join(core.REPO, "contrib")] + core.CFG_DEFS[u.cfg] + ["-D" + d for d in u.defs] + \
           ["-DVERIF_ENTRY=" + u.entry, os.path.join(VERIF, u.harness), os.path.join(VERIF, "harness", "native_main.c"),
@@ -108,7 +108,7 @@ def native_build(u, outdir):
     return (exe if p.returncode == 0 else None), p.stderr
 
 
-def native_replay(u, inputs, desc):
+def native_replay(u, inputs, desc, prop_id=""):
     outdir = os.path.join(core.BUILD, u.name)
     os.makedirs(outdir, exist_ok=True)
     exe, err = native_build(u, outdir)
@@ -119,12 +119,16 @@ def native_replay(u, inputs, desc):
         for k, v in inputs.items():
             fh.write("%s %s\n" % (k, v))
     try:
-        p = subprocess.run([exe, inp], capture_output=True, text=True, timeout=120)
+        p = subprocess.run([exe, inp], capture_output=True, text=True, timeout=120, env=dict(os.environ, ASAN_OPTIONS="detect_leaks=0", UBSAN_OPTIONS="print_stacktrace=0"))
     except subprocess.TimeoutExpired:
         return False, "native replay timed out"
     out = p.stdout + p.stderr
     # the native harness prints 'ASSERT-FAILED: <desc>' for each failing assertion
     rep = any(l.startswith("ASSERT-FAILED: ") and l[len("ASSERT-FAILED: "):].strip() == desc.strip() for l in out.splitlines())
+    if not rep and prop_id and ".assertion." not in prop_id:
+        # a generated safety obligation (bounds, pointer, shift, overflow, leak): the native build carries
+        # ASan+UBSan, whose report on the same inputs is the reproduction
+        rep = ("runtime error:" in out) or ("ERROR: AddressSanitizer" in out)
     return rep, out
 
 
@@ -140,7 +144,7 @@ def replay_file(path):
         m = importlib.util.module_from_spec(spec); spec.loader.exec_module(m); units += m.UNITS
     u = [x for x in units if x.name == rec.get("unit")]
     if u and u[0].replay and rec.get("inputs"):
-        ok, out = native_replay(u[0], rec["inputs"], rec["obligation"])
+        ok, out = native_replay(u[0], rec["inputs"], rec["obligation"], rec.get("obligation_id", ""))
         print(out[-3000:])
         print("REPRODUCED" if ok else "not reproduced natively")
         return 1 if ok else 0
